@@ -546,7 +546,7 @@ func runSchedule(b wbehaviour) (wresult, error) {
 				// Close is waiting for something the schedule still holds; carry on
 			}
 			r.Forced++
-		case "W_Recv", "W_Tick", "W_Dead":
+		case "W_Recv", "W_Tick", "W_Dead", "E_CoreClose":
 			// internal to the writer goroutine: not controllable, left to the real scheduler
 			time.Sleep(200 * time.Microsecond)
 		default:
